@@ -507,6 +507,14 @@ class Seams:
         io.open = self.open
         os.read = _os_read
         os.write = _os_write
+        global _orig_select, _orig_sleep
+        import select as _select
+        import time as _time
+
+        if _orig_select is None:
+            _orig_select, _orig_sleep = _select.select, _time.sleep
+        _select.select = sim_select
+        _time.sleep = sim_sleep
         os.listdir = self.listdir
         os.walk = self.walk
         os.path.isfile = self.isfile
@@ -901,6 +909,73 @@ def _exc_by_name(name: str):
 
 # ----------------------------------------------------------------------------
 # byte pipes
+
+
+# ----------------------------------------------------------------------------
+# readiness and time: select()/poll() on the simulated stdin and sleeping are answered by the
+# simulator's model of the client and its virtual clock (no real waiting ever happens)
+
+VCLOCK = {"now": 0.0, "idle": 0.0}
+IDLE_LIMIT_S = 120.0  # simulated seconds a server may idle-wait while the client waits for an answer
+_orig_select = None
+_orig_sleep = None
+
+
+def _is_stdin(x):
+    try:
+        fd = x if isinstance(x, int) else x.fileno()
+    except Exception:
+        return False
+    return fd == 0 and 0 in STDIO
+
+
+def _idle_wait(seconds, what):
+    VCLOCK["now"] += seconds
+    VCLOCK["idle"] += seconds
+    ev("vwait", what, seconds)
+    if VCLOCK["idle"] > IDLE_LIMIT_S:
+        import traceback as _tb
+
+        violation("LIVENESS", "idle-wait", _site_from_stack(_tb.extract_stack()),
+                  f"the server waited {VCLOCK['idle']:.0f} simulated seconds ({what}) while a delivered request "
+                  "was unanswered and the client was waiting for the answer")
+        violation("C16", "in-lost", "client->server decoding: a delivered message stays undecoded while the server "
+                  "waits for more input", f"{what}; the client has written the message completely and waits for "
+                  "its answer")
+        ev("liveness", "idle")
+        if S.abort_cb:
+            S.abort_cb("LIVENESS")
+        os._exit(5)
+
+
+def sim_select(rlist, wlist, xlist, timeout=None):
+    if S.sim or not any(_is_stdin(x) for x in rlist):
+        return _orig_select(rlist, wlist, xlist, timeout)
+    S.sim += 1
+    try:
+        drv = getattr(S, "driver", None)
+        ready = drv is None or drv.client_would_write()
+        if ready:
+            return [x for x in rlist if _is_stdin(x)], [], []
+        _idle_wait(30.0 if timeout is None else max(float(timeout), 0.001),
+                   "select() on stdin" + ("" if timeout is not None else " without timeout"))
+        return [], [], []
+    finally:
+        S.sim -= 1
+
+
+def sim_sleep(seconds):
+    if S.sim:
+        return _orig_sleep(seconds)
+    S.sim += 1
+    try:
+        drv = getattr(S, "driver", None)
+        if drv is not None and not drv.client_would_write():
+            _idle_wait(float(seconds), "sleep()")
+        else:
+            VCLOCK["now"] += float(seconds)
+    finally:
+        S.sim -= 1
 
 
 # The process's standard streams as the server sees them: whichever way fortls.main() gets at
